@@ -455,6 +455,43 @@ func ruleUniqueID(c *core.Ctx, objects *types.Var) {
 	reserved := map[ssa.Value]bool{}
 	// storeOK: the store seen in f at instruction at (the map update, or the call of
 	// the private helper that performs it) under key is behind a failed lookup of key
+	// predGuards: the false answers of predicate helpers of the unit that look their parameter
+	// up (for s.inUse(index) { index = … }), for the calls that were handed this key
+	predGuards := func(f *ssa.Function, key ssa.Value) []core.EdgeMatcher {
+		var ms []core.EdgeMatcher
+		for _, call := range core.Calls(f) {
+			cv, isCall := call.(*ssa.Call)
+			h := core.StaticCallee(call)
+			if !isCall || h == nil || h == f || !isPrivateHelper(c, h) || len(h.Blocks) == 0 || h.Signature.Results().Len() != 1 {
+				continue
+			}
+			for _, lk := range mapLookups(h, objects) {
+				if !lk.CommaOk {
+					continue
+				}
+				pj := -1
+				for j, hp := range h.Params {
+					if core.Canon(lk.Index) == ssa.Value(hp) {
+						pj = j
+					}
+				}
+				if pj < 0 || pj >= len(cv.Call.Args) || !core.SameValue(cv.Call.Args[pj], key) {
+					continue
+				}
+				answersLookup := true
+				for _, r := range core.Returns(h) {
+					if !okOf(lk)(core.RetVal(r, 0)) {
+						answersLookup = false
+					}
+				}
+				if answersLookup {
+					the := cv
+					ms = append(ms, core.IsFalse(func(v ssa.Value) bool { return core.Canon(v) == ssa.Value(the) }))
+				}
+			}
+		}
+		return ms
+	}
 	var storeOK func(f *ssa.Function, at ssa.Instruction, key ssa.Value, depth int) bool
 	storeOK = func(f *ssa.Function, at ssa.Instruction, key ssa.Value, depth int) bool {
 		var ms []core.EdgeMatcher
@@ -463,6 +500,7 @@ func ruleUniqueID(c *core.Ctx, objects *types.Var) {
 				ms = append(ms, core.IsFalse(okOf(lk)))
 			}
 		}
+		ms = append(ms, predGuards(f, key)...)
 		if len(ms) > 0 && guardedUp(c, f, at, core.AnyOf(ms...)) {
 			reserved[core.Canon(key)] = true
 			return true
@@ -486,6 +524,9 @@ func ruleUniqueID(c *core.Ctx, objects *types.Var) {
 						if lk.CommaOk && core.SameValue(lk.Index, v) && core.Guarded(h, r, core.IsFalse(okOf(lk))) {
 							okRet = true
 						}
+					}
+					if pg := predGuards(h, v); len(pg) > 0 && core.Guarded(h, r, core.AnyOf(pg...)) {
+						okRet = true
 					}
 					if !okRet {
 						free = false
